@@ -58,6 +58,7 @@ func analyseBuilder(p *Program, fn *ssa.Function) builderFacts {
 	bf.N = at.Len()
 	e := NewEngine(p)
 	e.GenericLoops = true
+	e.PruneByFacts = true // uint8(i) of a counter confined to [0, 256) by its loop is i
 	// quantisers stay symbolic; helper functions the builder delegates to are followed
 	e.Opaque = func(f *ssa.Function) bool {
 		return f.Pkg != nil && f.Pkg.Pkg.Path() == ModPath+"/linear" && strings.HasPrefix(f.Name(), "NormalisedTo")
